@@ -24,6 +24,8 @@ pub enum Ev {
     Save,
     /// textDocument/documentSymbol (waits for parsing)
     Symbols,
+    /// full-text didChange whose text does not parse (the compilation fails: no program)
+    ChangeBroken(u8),
 }
 impl Ev {
     pub fn kind(&self) -> &'static str {
@@ -32,6 +34,7 @@ impl Ev {
             Ev::Change(_) => "change",
             Ev::Save => "save",
             Ev::Symbols => "symbols",
+            Ev::ChangeBroken(_) => "change-broken",
         }
     }
 }
@@ -179,6 +182,8 @@ pub struct Outcome {
     pub token_markers: Vec<String>,
     /// marker functions in the server's document text at the end
     pub doc_markers: Vec<String>,
+    /// the server's document is the text that does not parse
+    pub doc_broken: bool,
     /// a didChange handler reached `send_new_compilation_request` while the file on disk differed from its document
     pub disk_lag: Option<String>,
     pub harness_error: Option<String>,
@@ -187,10 +192,17 @@ pub struct Outcome {
 pub trait Chooser {
     /// index into `enabled`, or None to stop choosing (the default policy finishes the execution)
     fn choose(&mut self, depth: usize, enabled: &[Trans]) -> Option<usize>;
+    /// after `choose` returned None: give the execution up instead of finishing it with the default policy
+    fn abandon(&self) -> bool {
+        false
+    }
 }
 
 fn base_text(marker: u8) -> String {
     format!("script;\n\nfn main() {{\n}}\n\nfn v{marker}() {{\n}}\n")
+}
+fn broken_text(marker: u8) -> String {
+    format!("script;\n// BROKEN\nfn main() {{\n}}\n\nfn v{marker}( {{\n")
 }
 fn markers_in(text: &str) -> Vec<String> {
     let mut v = vec![];
@@ -319,6 +331,13 @@ impl World {
                             })
                             .await
                         }
+                        Ev::ChangeBroken(v) => {
+                            st.did_change(DidChangeTextDocumentParams {
+                                text_document: VersionedTextDocumentIdentifier { uri, version: v as i32 },
+                                content_changes: vec![TextDocumentContentChangeEvent { range: None, range_length: None, text: broken_text(v) }],
+                            })
+                            .await
+                        }
                         Ev::Save => st.did_save(DidSaveTextDocumentParams { text_document: TextDocumentIdentifier { uri }, text: None }).await,
                         Ev::Symbols => {
                             let _ = st
@@ -401,7 +420,8 @@ impl World {
                     next_start_seen = true;
                     // tower-lsp runs at most 4 handlers concurrently, started in arrival order
                     if in_flight < 4 {
-                        v.push(Trans { actor: i, label: "start" });
+                        // a didChange updates the document and the file before its first stop
+                        v.push(Trans { actor: i, label: if matches!(self.script[i], Ev::Change(_) | Ev::ChangeBroken(_)) { "start(change)" } else { "start" } });
                     }
                 }
                 _ => {}
@@ -429,6 +449,10 @@ impl World {
                 match chooser.choose(trace.len(), &en) {
                     Some(k) => k.min(en.len() - 1),
                     None => {
+                        if chooser.abandon() {
+                            err = Some("ABANDONED".into());
+                            break;
+                        }
                         choosing = false;
                         continue;
                     }
@@ -455,6 +479,7 @@ impl World {
         let snapshot = self.state.verif_snapshot();
         let mut token_markers = vec![];
         let mut doc_markers = vec![];
+        let mut doc_broken = false;
         if let Ok(uri) = self.state.uri_from_workspace(&Url::from_file_path(&self.file).unwrap()) {
             for item in self.state.token_map.tokens_for_file(&uri) {
                 token_markers.extend(markers_in(&item.key().name));
@@ -463,6 +488,7 @@ impl World {
             token_markers.dedup();
             if let Ok(doc) = self.state.documents.get_text_document(&uri) {
                 doc_markers = markers_in(doc.get_text());
+                doc_broken = doc.get_text().contains("// BROKEN");
             }
         }
         let disk_lag = self.disk_lag.lock().unwrap().clone();
@@ -476,12 +502,12 @@ impl World {
         for t in self.threads.drain(..) {
             let _ = t.join();
         }
-        if self.script.iter().any(|e| matches!(e, Ev::Change(_))) {
+        if self.script.iter().any(|e| matches!(e, Ev::Change(_) | Ev::ChangeBroken(_))) {
             close_files(&self.state, &self.rt, std::slice::from_ref(&self.file));
         }
         unregister_server(self.id);
         remove_project_dir(&self.dir);
-        Outcome { trace, stuck, snapshot, token_markers, doc_markers, disk_lag, harness_error }
+        Outcome { trace, stuck, snapshot, token_markers, doc_markers, doc_broken, disk_lag, harness_error }
     }
 }
 
